@@ -686,6 +686,68 @@ func init() {
 	})
 
 	Register(&Suite{
+		Name:       "ctcp.decode.line",
+		Prop:       []string{"C14"},
+		Fixed:      ctcpLineFixed,
+		Exhaustive: "white space of every kind strings.TrimSpace knows (and some it does not) after the closing and before the opening delimiter, CRLF and bare LF line ends",
+		Gen:        func(r *rand.Rand) Case { return genCTCPLine(r, false) },
+		Run: func(c Case) Result {
+			if len(c) < 5 {
+				return Result{Obs: "?args"}
+			}
+			spec := specOfLine(c)
+			want := specDecode(spec)
+			e := girc.ParseEvent(c[0])
+			if e == nil {
+				return Result{Obs: "noparse", Oracle: "line-noparse: a well-formed line was not parsed", Sig: "noparse"}
+			}
+			got := girc.DecodeCTCP(e)
+			res := Result{Obs: showCTCP(got), Sig: "line/" + ctcpSig(spec)}
+			switch {
+			case got != nil && want == nil:
+				res.Oracle = "decode-accepts-non-ctcp: a received line whose text is not delimited by 0x01 on both ends was decoded as CTCP"
+			case got == nil && want != nil:
+				res.Oracle = "decode-rejects-ctcp: valid CTCP line not decoded"
+			case got != nil && (got.Command != want.cmd || got.Text != want.text || got.Reply != want.reply):
+				res.Oracle = "decode-fields: wrong command, text or reply flag"
+			}
+			return res
+		},
+	})
+
+	Register(&Suite{
+		Name: "ctcp.replies.wire",
+		Prop: []string{"C14"},
+		Fixed: func() []Case {
+			var out []Case
+			for _, c := range ctcpLineFixed() {
+				out = append(out, append(Case{"0"}, c...))
+			}
+			return out
+		},
+		Gen: func(r *rand.Rand) Case {
+			return append(Case{Pick(r, "0", "0", "1", "4")}, genCTCPLine(r, true)...)
+		},
+		Run: func(c Case) Result {
+			if len(c) < 6 || !strings.HasSuffix(c[1], "\n") || strings.ContainsAny(strings.TrimRight(c[1], "\r\n"), "\r\n") {
+				return Result{Obs: "?args"}
+			}
+			x := ctcpSession(c[0])
+			spec := specOfLine(c[1:])
+			lines, panicked := x.wireInject(c[1])
+			if panicked {
+				return Result{Obs: "PANIC", Oracle: "panic: a CTCP handler panicked", Sig: "panic"}
+			}
+			for i := range lines {
+				lines[i] = canonReply(lines[i])
+			}
+			res := Result{Obs: HexList(lines), Sig: "v" + c[0] + "/wire/" + ctcpSig(spec) + "/" + strconv.Itoa(len(lines))}
+			res.Oracle = replyOracle(x, spec, lines)
+			return res
+		},
+	})
+
+	Register(&Suite{
 		Name: "ctcp.send",
 		Prop: []string{"C14"},
 		Fixed: func() []Case {
@@ -953,6 +1015,121 @@ func sendCTCP(x *ctcpSess, kind, target, typ, msg string) (lines []string, panic
 		}
 	}()
 	return x.flush(mark), panicked
+}
+
+// ---- the real read path (suites ctcp.decode.line, ctcp.replies.wire) ----
+//
+// A case is the raw line plus the pieces it was assembled from (nick, command, target, text):
+// the oracle decides CTCP-ness from the raw bytes of the trailing parameter - it must end in
+// 0x01 exactly -, not from what the parser made of the line.
+
+var (
+	ctcpTrailers = []string{"", "", "", " ", "\t", "\u00a0", "   ", " \t ", "\v", "\f", "\u0085", "x", "\x01", " \x01", "\u2003", "\x00"}
+	ctcpLeaders  = []string{"", "", "", "", " ", "\t", "\u00a0", "  ", ":"}
+)
+
+func genCTCPLine(r *rand.Rand, wire bool) Case {
+	nick := Pick(r, "alice", "Nick[x]", "bob", "irc.server.net", "me", "a^b")
+	cmd := "PRIVMSG"
+	switch r.Intn(10) {
+	case 0, 1, 2:
+		cmd = "NOTICE"
+	case 3:
+		if !wire {
+			cmd = Pick(r, "TOPIC", "privmsg", "TAGMSG")
+		}
+	}
+	target := Pick(r, "me", "#chan", "test")
+	var body string
+	switch r.Intn(6) {
+	case 0:
+		body = genCTCPText(r)
+	default:
+		c := Pick(r, append(append([]string{}, ctcpKnown...), "ACTION", "FOO", "X1", "ping")...)
+		body = "\x01" + c + Pick(r, "", "", " ", " 123", " a b", " trailing  ") + "\x01"
+	}
+	text := body
+	if r.Intn(5) < 3 {
+		text = Pick(r, ctcpLeaders...) + body + Pick(r, ctcpTrailers...)
+	}
+	if wire {
+		text = strings.Map(func(c rune) rune {
+			if c == '\r' || c == '\n' {
+				return -1
+			}
+			return c
+		}, text)
+	}
+	eol := Pick(r, "\r\n", "\r\n", "\n")
+	if !wire {
+		eol = Pick(r, "\r\n", "\n", "", "\r", "\r\n\r\n")
+	}
+	return ctcpLineCase(nick, cmd, target, text, eol)
+}
+
+func ctcpLineCase(nick, cmd, target, text, eol string) Case {
+	prefix := ":" + nick
+	if !strings.Contains(nick, ".") {
+		prefix += "!u@h"
+	}
+	return Case{prefix + " " + cmd + " " + target + " :" + text + eol, nick, cmd, target, text}
+}
+
+// specOfLine: the event the line stands for, from the pieces. The line terminator is not part
+// of the text, so CR/LF at its very end are not either.
+func specOfLine(c Case) *girc.Event {
+	// (IRC commands are case-insensitive; ParseEvent normalises them to upper case)
+	return &girc.Event{Source: &girc.Source{Name: c[1]}, Command: strings.ToUpper(c[2]), Params: []string{c[3], strings.TrimRight(c[4], "\r\n")}}
+}
+
+func ctcpLineFixed() []Case {
+	var out []Case
+	for _, k := range []string{"PRIVMSG", "NOTICE"} {
+		for _, body := range []string{"\x01VERSION\x01", "\x01PING 1\x01", "\x01FOO\x01", "\x01ACTION waves\x01", "\x01TIME \x01"} {
+			for _, tr := range []string{"", " ", "\t", "\u00a0", "  ", " \t", "\v", "\f", "\u0085", "\u1680", "\u2028", "\u3000", "x", "\x01", "\x00"} {
+				for _, eol := range []string{"\r\n", "\n"} {
+					out = append(out, ctcpLineCase("alice", k, "test", body+tr, eol))
+				}
+			}
+			for _, ld := range []string{" ", "\t", "\u00a0", "  ", ":"} {
+				out = append(out, ctcpLineCase("alice", k, "test", ld+body, "\r\n"))
+			}
+		}
+	}
+	return out
+}
+
+// wireInject writes raw (which carries its own line terminator) to the client's socket, waits
+// until the client has handled it - a PING sent after it has been answered - and until the
+// goroutines started meanwhile have ended, and returns what the client wrote because of it.
+func (x *ctcpSess) wireInject(raw string) (lines []string, panicked bool) {
+	before := x.s.PanicCount()
+	mark := x.s.Mark()
+	base := runtime.NumGoroutine()
+	x.n++
+	tok := "wsync" + strconv.Itoa(x.n)
+	if _, err := x.s.Peer.Write([]byte(raw + "PING :" + tok + "\r\n")); err != nil {
+		return []string{"?write-error"}, false
+	}
+	if _, ok := x.s.WaitLine(func(l string) bool { return l == "PONG "+tok+"\r\n" || l == "PONG :"+tok+"\r\n" }, 10*time.Second); !ok {
+		return []string{"?sync-timeout"}, false
+	}
+	// the answers come from goroutines of their own: wait until they have ended (twice, a
+	// goroutine of the reader is being replaced around now) and flush the send queue twice
+	time.Sleep(500 * time.Microsecond)
+	quiesce(base)
+	time.Sleep(200 * time.Microsecond)
+	quiesce(base)
+	first := x.flush(mark)
+	second := x.flush(mark)
+	_ = first
+	for _, l := range second {
+		if strings.HasPrefix(l, "PONG wsync") || strings.HasPrefix(l, "PONG :wsync") || strings.HasPrefix(l, "VSYNC ") {
+			continue
+		}
+		lines = append(lines, l)
+	}
+	return lines, x.s.PanicCount() != before
 }
 
 // ---- handler registration (suites ctcp.parsecmd, ctcp.table) ----
